@@ -25,10 +25,18 @@ def limbs(x):
     return out
 
 
-def btree(n):
-    if n.is_term():
-        return ["T", n.symbol.name, n.start_position, n.end_position]
-    return ["N", n.production.prod_id, n.start_position, n.end_position, [btree(c) for c in n]]
+def btree(root):
+    """a tree as a FLAT preorder list of records (nested JSON deeper than 255 levels cannot be read by the TLA+ Json module)"""
+    out, stack = [], [root]
+    while stack:
+        n = stack.pop()
+        if n.is_term():
+            out.append({"k": "T", "t": n.symbol.name, "p": -1, "s": n.start_position, "e": n.end_position, "n": 0})
+        else:
+            kids = list(n)
+            out.append({"k": "N", "t": "", "p": n.production.prod_id, "s": n.start_position, "e": n.end_position, "n": len(kids)})
+            stack.extend(reversed(kids))
+    return out
 
 
 def export_kids_first(forest):
